@@ -100,7 +100,7 @@ def root_qname(fn):
 class Site:
     __slots__ = ("fn", "bb", "kind", "callee", "opterm", "ln", "key", "detail", "terms")
 
-    def __init__(self, fn, bb, kind, callee, opterm, ln, detail, terms=()):
+    def __init__(self, fn, bb, kind, callee, opterm, ln, detail, terms=(), keypart=""):
         self.fn = fn
         self.bb = bb
         self.kind = kind
@@ -109,12 +109,21 @@ class Site:
         self.ln = ln
         self.detail = detail
         self.terms = terms
-        # overflow-check sites are keyed by (function, operator) with multiplicity only: keying them by
-        # operand made every edit of an arithmetic expression on an analysed path look like a new site
-        self.key = "%s | %s | %s | %s | %s" % (fn.crate, root_qname(fn), kind, callee, "" if kind == "overflow" else opterm)
+        # Keys carry no operand term: (crate, root function, kind, callee/operator[, receiver type or panic
+        # flavour]) with multiplicity. Operand-bearing keys made every behaviour-preserving rewrite of an
+        # expression (iterator chain <-> loop, helper extraction, renamed temporaries) look like a new site.
+        self.key = "%s | %s | %s | %s | %s" % (fn.crate, root_qname(fn), kind, callee, keypart)
+
+    def node(self):
+        return self.fn.blocks[self.bb]["t"]
+
+    def origin(self):
+        """(qname, file) of the function the instruction was written in (differs from fn for inlined helper code)"""
+        t = self.node()
+        return t.get("of", self.fn.qname), t.get("of_file", self.fn.file)
 
     def loc(self):
-        return self.fn.loc(self.ln)
+        return "node/%s:%s" % (self.origin()[1], self.ln)
 
 
 def sites_of(fn, T, extern_panicking=None):
@@ -170,5 +179,14 @@ def sites_of(fn, T, extern_panicking=None):
                     opt = "%s: %s" % (fn.ty(ga[0]).s, opt)
             else:
                 opt = ",".join(key_term(a, fn, T) for a in args[:1])
-            out.append(Site(fn, bi, kind, q, opt, t.get("ln", 0), "%s(%s)" % (q, ", ".join(show(a) for a in args)), tuple(args)))
+            keypart = ""
+            if kind == "panic":
+                keypart = opt
+            elif kind == "index":
+                ga = t["f"].get("ga", [])
+                keypart = fn.ty(ga[0]).s if ga else ""
+            if kind == "extern" and q in ("std::iter::Iterator::sum", "std::iter::Iterator::product"):
+                # the same hazard as an explicit accumulation loop: key it like one
+                kind, q = "overflow", ("Add" if q.endswith("sum") else "Mul")
+            out.append(Site(fn, bi, kind, q, opt, t.get("ln", 0), "%s(%s)" % (q, ", ".join(show(a) for a in args)), tuple(args), keypart))
     return out
